@@ -361,7 +361,9 @@ theorem authority_not_ca (t : Time) (fabric : FabricView) (noc : Cert) (icac : O
   obtain ⟨k, hk⟩ := valid_authority h.1 c hc
   exact hd hk.2.1
 
-/-- **path length**: a root limited to 0 intermediates above a chain that has one -/
+/-- **path length**: a root limited to 0 intermediates above a chain that has one (the only limit that
+can bite in a chain of at most three certificates; `path_len_root_limit` and, for the bare verifier at
+any depth and any limit, `path_len_any_depth` are below) -/
 theorem path_len (t : Time) (fabric : FabricView) (noc ic : Cert)
     (hd : fabric.root.bc = some (true, some 0)) : Rejected t fabric noc (some ic) := by
   apply rejected_of_not_valid
@@ -631,6 +633,70 @@ theorem addTrustedRoot_iff (t : Time) (root : Cert) : addTrustedRoot t root = tr
       | some n => simp [h.1, h.2.1, h.2.2.1, hp]
 
 
+/-- **path length, any depth and any limit** (bare verifier): an authority at position `i ≥ 1` of
+the path — `i - 1` intermediate authorities lie between it and the leaf — whose BasicConstraints
+allow fewer than that -/
+theorem path_len_any_depth (t : Time) (p : List Cert) (hl : p.length ≤ 255) (i : Nat) (c : Cert)
+    (hi : p[i]? = some c) (ca : Bool) (n : Nat) (hbc : c.bc = some (ca, some n)) (hd : n + 1 < i) :
+    verifyChain t p ≠ .ok () := by
+  intro h
+  have hv := (verifyChain_iff_pathValid t p hl).1 h
+  have hm : (c, i) ∈ p.zipIdx := by
+    rw [List.mem_zipIdx_iff_getElem?]; simpa using hi
+  rcases hv.2.2.2 (c, i) hm with ⟨h0, _⟩ | ha
+  · simp at h0; omega
+  · have := ha.2.2.2 n (by simp [hbc])
+    simp at this; omega
+
+/-- the same in a CASE chain: the only limit that can bite in `noc ← icac ← root` is 0 on the root
+(`path_len`); stated for any limit the root may carry -/
+theorem path_len_root_limit (t : Time) (fabric : FabricView) (noc ic : Cert) (ca : Bool) (n : Nat)
+    (hd : fabric.root.bc = some (ca, some n)) (hn : n < 1) : Rejected t fabric noc (some ic) := by
+  apply rejected_of_not_valid
+  intro h
+  have h1 := h.1.2.2.2.2.1
+  simp [pathOf, List.zipIdx] at h1
+  have := h1.2.2.2.2 n (by simp [hd])
+  omega
+
+/-! ## Staging a root: what the property sentence asks for, and what the code accepts beyond it -/
+
+/-- a stand-alone certificate that IS a root authority: self-issued CA certificate (the sentence's
+"self-signed root … the authorities are CA certificates") -/
+def RootValidStrict (t : Time) (root : Cert) : Prop :=
+  Issues root root ∧ Covers t root ∧ NoUnknownCritical root ∧ AuthorityProfile root 0 ∧
+    ∀ n ∈ root.bc.bind Prod.snd, n ≤ 1
+
+/-- what `AddTrustedRootCertificate` stages beyond that: a self-signed certificate with the LEAF
+profile (`finalise` at depth 0 runs the leaf branch of `verify_usage`) -/
+theorem rootValid_iff (t : Time) (root : Cert) :
+    RootValid t root ↔ RootValidStrict t root ∨
+      (Issues root root ∧ Covers t root ∧ NoUnknownCritical root ∧ LeafProfile root ∧
+        ∀ n ∈ root.bc.bind Prod.snd, n ≤ 1) := by
+  unfold RootValid RootValidStrict
+  constructor
+  · rintro ⟨h1, h2, h3, h4 | h4, h5⟩
+    · exact Or.inl ⟨h1, h2, h3, h4, h5⟩
+    · exact Or.inr ⟨h1, h2, h3, h4, h5⟩
+  · rintro (⟨h1, h2, h3, h4, h5⟩ | ⟨h1, h2, h3, h4, h5⟩)
+    · exact ⟨h1, h2, h3, Or.inl h4, h5⟩
+    · exact ⟨h1, h2, h3, Or.inr h4, h5⟩
+
+/-- **a leaf-shaped "root" is inert**: no chain whatsoever is valid under it (so staging it has no
+consequence other than the AddNOC that follows failing) -/
+theorem leaf_shaped_root_unusable (t : Time) (root noc : Cert) (icac : Option Cert)
+    (h : LeafProfile root) : ¬ ChainValid t root noc icac := by
+  intro hv
+  obtain ⟨k, hk⟩ := valid_authority hv root (by cases icac <;> simp [pathOf])
+  rcases hk.1 with h1 | h1 <;> rw [h.1] at h1 <;> cases h1
+
+/-- every root the staging command accepts is a root authority in the sentence's sense, or inert -/
+theorem staged_root_strict_or_inert (t : Time) (root : Cert) (h : addTrustedRoot t root = true) :
+    RootValidStrict t root ∨ ∀ t' noc icac, ¬ ChainValid t' root noc icac := by
+  rcases (rootValid_iff t root).1 ((addTrustedRoot_iff t root).1 h) with h1 | h1
+  · exact Or.inl h1
+  · exact Or.inr fun t' noc icac => leaf_shaped_root_unusable t' root noc icac h1.2.2.2.1
+
 /-! ## Non-vacuity: a concrete valid chain and its single mutations -/
 
 def exRoot : Cert :=
@@ -742,5 +808,56 @@ example : verifyChain exT [exRoot] = .ok () := by rfl
 example : PathValid exT [exNoc, exIcac, exRoot] := by decide
 example : addTrustedRoot exT exRoot = true := by rfl
 example : addTrustedRoot exT { exRoot with bc := some (true, some 2) } = false := by rfl
+
+/-! ## What the symbolic signature does NOT say, and the decided readings of the specification
+
+* **Signatures are symbolic**: `sigBy` names the key under which the signature verifies and binds no
+  content.  `Issues`' first clause and `addCert`'s signature test are the same expression, so "signed
+  by the next one" is definitional in Lean, and a field changed WITHOUT touching `sigBy` stays
+  "validly signed" — the quantifier "every mutation of a valid chain in exactly one respect" is, for
+  un-re-signed changes, covered by the harness only (`tlvm rs=0`: every TLV field of every
+  certificate, one bit, presented with the old signature ⇒ refused by the real ECDSA check); in Lean
+  only `sigBy := none` stands for "altered after signing". -/
+example : caseAccept exT exFabric { exNoc with subject := [.nodeId 99, .fabricId 7] } (some exIcac) = .ok 99 := by rfl
+
+/-! * **Authority kind is not tied to position** (`AuthorityProfile` accepts a subject naming an ICA or
+  a root CA at every authority position): the sentence asks for "CA certificates within their
+  path-length limit" and a trusted root "for the purpose at hand" — the root is the certificate the
+  fabric was installed with, whatever it calls itself, and an intermediate is anchored by its
+  signature, not by its name.  Decided: the code is right under the sentence (the CHIP SDK's chain
+  validation does not tie the kind to the position either); kept. -/
+def exRootIcaNamed : Cert := { exRoot with subject := [.icaId 1, .fabricId 7], issuer := [.icaId 1, .fabricId 7] }
+def exIcacRootNamed : Cert := { exIcac with subject := [.rootCaId 2, .fabricId 7], issuer := [.icaId 1, .fabricId 7] }
+example : CaseValid exT { exFabric with root := exRootIcaNamed }
+    { exNoc with issuer := [.rootCaId 2, .fabricId 7] } (some exIcacRootNamed) := by decide
+
+/-! * **The root's own fabric id is never compared** (the leaf's is, and the intermediate's if it has
+  one): the sentence asks for "the leaf carries … the fabric identifier of the fabric it is used
+  for".  A fabric id inside the trusted root is a well-formedness rule of Matter's certificate
+  profile about what a commissioner may install, not part of the sentence, and nothing an attacker
+  can use (the root is trusted by installation).  Decided: right under the sentence; kept, noted in
+  `docs/C19.md` as a difference to the profile. -/
+def exRoot8 : Cert := { exRoot with subject := [.rootCaId 1, .fabricId 8], issuer := [.rootCaId 1, .fabricId 8] }
+example : CaseValid exT { fabricId := 7, root := exRoot8 }
+    { exNocDirect with issuer := [.rootCaId 1, .fabricId 8] } none := by decide
+
+/-! * **`RootValid` has a leaf-profile disjunct** because `AddTrustedRootCertificate` runs `finalise` at
+  depth 0, i.e. the LEAF branch of `verify_usage`, on the candidate: a self-signed NOC-shaped
+  certificate is staged.  The sentence's notion is `RootValidStrict`; `rootValid_iff` splits the
+  code's contract into that and the leaf-shaped rest, `leaf_shaped_root_unusable` /
+  `staged_root_strict_or_inert` show the rest is inert (no chain is valid under it).  Decided: no
+  chain is accepted that the sentence refuses, so not a violation of the sentence; it IS laxer than
+  the CHIP SDK's `ValidateChipRCAC` (which demands the root certificate type) — noted, not changed. -/
+def exLeafRoot : Cert :=
+  { exNocDirect with issuer := exNocDirect.subject, akid := exNocDirect.skid, sigBy := some exNocDirect.pubKey }
+example : addTrustedRoot exT exLeafRoot = true ∧ ¬ RootValidStrict exT exLeafRoot := by
+  refine ⟨by rfl, ?_⟩
+  intro h
+  have := h.2.2.2.1.1
+  revert this; decide
+-- `path_len_any_depth` applied: a limit of 0 at position 3 of a four-certificate path
+def exRoot0 : Cert := { exRoot with bc := some (true, some 0) }
+example : verifyChain exT [exNoc, exIcac, exRoot0, exRoot0] ≠ .ok () :=
+  path_len_any_depth exT [exNoc, exIcac, exRoot0, exRoot0] (by decide) 3 exRoot0 rfl true 0 rfl (by decide)
 
 end C19
